@@ -37,6 +37,7 @@ type vconn struct {
 	signalLocked bool // a signal is due once the atomic section is left
 	closedAt     int64
 	stamp        bool
+	yieldAfterWrite bool // a scheduling point after the packet was accepted and before Write returns
 }
 
 func newVconn(name string) *vconn {
@@ -108,6 +109,12 @@ func (c *vconn) Write(p []byte) (int, error) {
 	if c.signalLocked {
 		c.signalLocked = false
 		defer c.signal()
+	}
+	if c.yieldAfterWrite {
+		c.wire = append(c.wire, p...)
+		verifUnlock()
+		verifYield()
+		return len(p), nil
 	}
 	if c.split && len(p) > 1 {
 		h := len(p) / 2
